@@ -3,3 +3,21 @@
 #include "ios_min.h"
 /* static data member CallasDonnerhackeFinneyShawThayerRFC4880::tmcg_openpgp_mem_alloc (allocation guard counter) */
 unsigned long tmcg_openpgp_mem_alloc;
+
+/* ---- sizes-only containers of PacketDecodeTag57 ---- */
+#define ROWCAP ((size_t)256)     /* the decoder refuses more than 255 parties / 129 coefficients before resizing */
+gcry_mpi_t vec_mpi__cell;       /* scratch cell every MPI element access goes through */
+static inline void vec_mpi__resize(vec_mpi *v, size_t n) { __CPROVER_assert(n <= ROWCAP, "model limit: at most 256 MPIs per vector"); v->size = n; }
+static inline gcry_mpi_t *vec_mpi__op_index(vec_mpi *v, size_t i) { __CPROVER_assert(i < v->size, "vector index in range"); return &vec_mpi__cell; }
+static inline void vec_str__clear(vec_str *v) { v->size = 0; }
+static inline void vec_str__push_back(vec_str *v, str_t *x) { (void)x; __CPROVER_assert(v->size < ROWCAP, "model limit: at most 256 strings"); v->size = v->size + 1; }
+static inline void vec_vec_mpi__resize(vec_vec_mpi *v, size_t n) { __CPROVER_assert(n <= v->cap, "model limit: rows"); v->size = n; }
+static inline vec_mpi *vec_vec_mpi__op_index(vec_vec_mpi *v, size_t i) { __CPROVER_assert(i < v->size, "vector index in range"); return &v->data[i]; }
+/* std::string locals that only receive a decoded string: no character buffer */
+static inline void str_t__ctor_nodata(str_t *s) { s->data = 0; s->size = 0; s->cap = 0; s->absid = 0; }
+#define str_t__ctor_0 str_t__ctor_nodata
+/* libgcrypt: the value of an MPI as an unsigned long is arbitrary */
+unsigned long nondet_ulong(void);
+static inline size_t tmcg_get_gcry_mpi_ui(gcry_mpi_t a) { (void)a; return nondet_ulong(); }
+#define VV_OK(v) (__CPROVER_is_fresh((v), sizeof(*(v))) && (v)->cap == ROWCAP && (v)->size <= ROWCAP && __CPROVER_is_fresh((v)->data, ROWCAP * sizeof(vec_mpi)))
+#define T57_SCRATCH vec_u8__cell, vec_mpi__cell, tmcg_openpgp_mem_alloc
